@@ -24,16 +24,16 @@ def gen_workers(rng):
     return pools
 
 
-def gen_workload(rng, malformed=False, batch=False):
+def gen_workload(rng, malformed=False, batch=False, dag=False):
     graphs, profiles = [], []
     njobs = rng.choice([1, 1, 2, 3])
     for ji in range(njobs):
         jname = f"J{ji}"
         b = tgen.Builder(rng, jname)
-        if rng.random() < 0.75:
+        if rng.random() < (0.0 if dag else 0.75):
             b.term(rng.choice([0, 1, 1, 2, 2]))
         else:
-            n = rng.randint(1, 5)
+            n = rng.randint(4, 7) if dag else rng.randint(1, 5)
             labs = [b.task() for _ in range(n)]
             for i in range(n):
                 for j in range(i + 1, n):
@@ -98,11 +98,14 @@ def gen_workload(rng, malformed=False, batch=False):
 def gen_world(rng, stream="regular"):
     malformed = stream == "malformed"
     batch = stream == "batch"
-    wl = gen_workload(rng, malformed, batch)
+    dag = stream == "dag"  # plain multi-parent DAGs (joins behind paths of different length) under the bundled greedy policies
+    wl = gen_workload(rng, malformed, batch, dag)
     periodic = any(g["release_policy"] == "periodic" for g in wl["graphs"])
     pol = rng.choice(["EDF", "FIFO", "LSF", "RANDOM", "RANDOM"])
     if batch:
         pol = "RANDOM"
+    if dag:
+        pol = rng.choice(["EDF", "FIFO", "LSF"])
     flags = {
         "loop_timeout": rng.choice([60, 120, 400]) if (periodic or rng.random() < 0.3) else rng.choice([9223372036854775807, 5000]),
         "scheduler_frequency": rng.choice([-1, -1, 0, 1, 7]),
